@@ -53,6 +53,7 @@ def strategy(tier: str) -> Any:
         'done_garbage': st.booleans(),
         'pre': st.lists(st.integers(0, 11), max_size=2),
         'pre_cmd': st.lists(st.integers(0, 3), min_size=2, max_size=2),
+        'late': st.tuples(st.integers(0, 3), st.integers(0, 4)).map(list),
         'schedule': st.lists(act, min_size=2, max_size=30),
     })
 
@@ -195,6 +196,29 @@ def run_case(case: dict[str, Any]) -> CaseOut:
                     out.fail('idle-missed-update:flags',
                              f'position {p + 1}: {desc}')
                     break
+        # one more change that lands while the client is already ending the
+        # IDLE: fed, then 0-4 loop iterations, then DONE without waiting. It
+        # may be reported before or after the tagged OK - but a NOOP later
+        # the idler must have it (nothing is lost around DONE)
+        late = case.get('late') or [0, 0]
+        late_fed = False
+        if late[0] and not out.failures and writers and \
+                not writers[0].conn.done:
+            w = writers[0]
+            tag_w = w.next_tag()
+            if late[0] == 1:
+                vid += 1
+                m = make_message('late%d' % vid)
+                w.conn.feed(tag_w + b' APPEND INBOX {%d+}\r\n' % len(m) + m
+                            + b'\r\n')
+            elif late[0] == 2:
+                w.conn.feed(tag_w + b' STORE 1:* +FLAGS.SILENT (\\Draft)\r\n')
+            else:
+                w.conn.feed(tag_w + b' STORE 1 +FLAGS.SILENT (\\Deleted)\r\n')
+                w.conn.feed(w.next_tag() + b' EXPUNGE\r\n')
+            sim.step(late[1])
+            late_fed = True
+            out.label('change-lands-while-done-is-sent')
         # DONE ends IDLE with the tagged OK, anything else with BAD
         for k, (c, tag) in enumerate(idlers):
             garbage = case['done_garbage'] and k == 0
@@ -206,6 +230,37 @@ def run_case(case: dict[str, Any]) -> CaseOut:
                 out.fail('idle-termination-wrong',
                          f'{"WHAT" if garbage else "DONE"} -> {raw!r}, '
                          f'expected tagged {want.decode()} ({backend})')
+            elif late_fed:
+                for r in c.parse(raw):
+                    c.shadow.apply(r)
+        if late_fed and not out.failures:
+            sim.settle(advance=3.0 if backend == 'maildir' else 0.0)
+            for w in writers:
+                w.conn.take()
+            truth = probe_dump(sim, 'alice', b'INBOX')
+            assert truth is not None
+            for k, (c, tag) in enumerate(idlers):
+                if c.conn.done:
+                    continue
+                c.command(b'NOOP')
+                unknown = [i + 1 for i, u in enumerate(c.shadow.view)
+                           if u is None or c.shadow.flags[i] is None]
+                if unknown:
+                    c.command(b'FETCH %d:%d (UID FLAGS)' % (
+                        unknown[0], unknown[-1]), nonuid_data_cmd=True)
+                for sig, msg in c.shadow.errors:
+                    out.fail(sig, f'idler {k} around DONE: {msg}')
+                c.shadow.errors.clear()
+                have = {u: f - {b'\\recent'}
+                        for u, f in c.shadow.uid_flags().items()}
+                want = {u: m['flags'] - {b'\\recent'}
+                        for u, m in truth['messages'].items()}
+                if have != want:
+                    out.fail('change-lost-around-done',
+                             f'idler {k}: a change fed {late[1]} loop '
+                             f'iterations before DONE; after the tagged OK '
+                             f'and a NOOP it holds {have}, the mailbox has '
+                             f'{want} ({backend})')
     finally:
         sim.close()
         if tmp:
